@@ -48,6 +48,9 @@ def random_histories(prop, gen, n):
         two = sorted([p, q], key=lambda f: -len(f["main.ms"]))
         items.append((prop, "random", "cf", "longer_then_shorter", {"steps": two}))
         items.append((prop, "random", "cf", "three_steps", {"steps": [p, q, r]}))
+        if prop == "C18":       # an x.mmm already exists when `transpile` writes it
+            items.append((prop, "random", "cf", "listing_copied", {"steps": [r], "exec": "copy"}))
+            items.append((prop, "random", "cf", "srcout_longer_then_shorter", {"steps": two, "exec": "srcout"}))
     return items
 
 
@@ -59,6 +62,8 @@ def run(ctx):
     progs += [(name, files, "main.ms") for name, files in projects]
     gen = cf_programs(ctx, ctx.n(120, 2000))
     progs += gen
+    dup = twin.duplabel_cases(ctx.rng("duplabel"), ctx.n(20, 200))
+    progs += dup
     items = [(PROP, name, files, entry, False, avoid) for name, files, entry in progs]
     cov = twin.collect_programs(PROP, out, items, sig_of)
     scov, chosen = twin.collect_strings(PROP, ctx, out)
@@ -69,7 +74,7 @@ def run(ctx):
     out.coverage["avoidance_rules"] = (
         ["programs whose emitted instruction arguments contain a character of a class listed in known_findings.json "
          "(%s) are not compared (their deviation is the listed finding)" % ", ".join(avoid)] if avoid else [])
-    out.coverage["workload_sizes"] = {"corpus": len(progs) - len(projects) - len(gen), "projects": len(projects),
+    out.coverage["workload_sizes"] = {"corpus": len(progs) - len(projects) - len(gen) - len(dup), "repeated_label_programs": len(dup), "projects": len(projects),
                                       "generated_cf": len(gen), "string_values": len(chosen)}
     pick = [(i, v, twin.has_raw_form(v)) for i, v in chosen[617:620]]
     out.samples = [{"kind": "string batch program (role mapkey, 3 of ~200 literals)", "values": [v for _, v, _ in pick],
@@ -80,7 +85,9 @@ def run(ctx):
     out.rule = ("each program is executed by `run` and by `compile`+`execute` (fresh directories, H-DUMP on); stdout, "
                 "exit class and every loaded function's instruction stream are compared. Programs: examples + "
                 "programs embedded in the test sources (<= 0.5 s CPU), all 27 project shapes (2-4 modules x "
-                "flat/sub/nested directories x import forms) + seeded projects, seeded control-flow programs. Strings: "
+                "flat/sub/nested directories x import forms) + seeded projects, seeded control-flow programs, programs in which one function label is emitted "
+                "several times (same-named local classes in 2-4 functions / blocks, a class called __fnN; which "
+                "declaration runs: last, first, middle, all). Strings: "
                 "%s values of length <= 4 over {\" \\ space TAB LF CR n r t é} that a literal can denote (not ending "
                 "in a backslash), escaped rendering + raw rendering for TAB/LF/CR, as print operand, map key and "
                 "assert-== operand; batches of 200 bisected to single literals (one evaluation = one (value, rendering, role) case decided, up to 200 share one pair of executions); each literal's decoded value is "
